@@ -148,3 +148,82 @@ def check_sent_totals(ck, P, rid):
         ck.violated(rid, inst, lp.where, "with %d rank(s) the send counts are accumulated for ranks %s only: a rank whose incoming count is left out stops waiting before all its messages of the closed colour arrived" % (bad[0], bad[1]), cfg)
     else:
         ck.holds(rid, inst, lp.where, "for 1..8 ranks the loop adds the send counts of every rank 0..n-1", cfg)
+
+
+def check_spawn_join(ck, P, rid):
+    """parallel_simulation starts one worker per thread id 0..n-1 (the id is what the worker receives) and joins every one of them."""
+    cfg = P.config
+    f = P.fn_opt("parallel_simulation")
+    if f is None:
+        ck.broken("%s: parallel_simulation not found" % rid)
+        return
+    inst = "every-thread@parallel_simulation"
+    bad = None
+    for n in range(1, 9):
+        env = {"global_config.n_threads": n, "global_config.core_binding": 0}
+        for k in range(n + 2):
+            env["thrs[%d]" % k] = 100 + k
+        outs = interp.Interp(f, stubs={"thread_start": lambda a, e: 0, "thread_affinity_set": lambda a, e: 0}, max_visits=n + 4).run(env)
+        done = [o for o in outs if o.how == "exit"]
+        if outs and all(o.how == "loop-bound" for o in outs):
+            ck.violated(rid, inst, f.where, "with %d thread(s) a start / join loop runs more than %d times" % (n, n + 4), cfg)
+            return
+        if len(done) != 1:
+            ck.inconclusive(rid, inst, f.where, "start / join loops could not be evaluated for %d thread(s)" % n, cfg)
+            return
+        started = sorted(a[2] for name, a, e in done[0].calls if name == "thread_start" and len(a) > 2 and a[2] is not None)
+        joined = sorted(a[0] - 100 for name, a, e in done[0].calls if name == "thread_wait" and a and a[0] is not None)
+        n_start = len([1 for name, a, e in done[0].calls if name == "thread_start"])
+        n_join = len([1 for name, a, e in done[0].calls if name == "thread_wait"])
+        if n_start != len(started) or n_join != len(joined):
+            ck.inconclusive(rid, inst, f.where, "the id given to a worker / the handle joined is not a function of the loop index", cfg)
+            return
+        if started != list(range(n)) and bad is None:
+            bad = (n, "workers are started with ids %s: %s" % (started, "an id that is missing has no thread to run its LPs and every barrier waits for it" if len(set(started)) < n else "ids outside 0..n-1"))
+        if joined != list(range(n)) and bad is None:
+            bad = (n, "thread handles %s are joined: the statistics and the LPs are finalised while thread(s) %s may still be running" % (joined, sorted(set(range(n)) - set(joined))))
+    if bad:
+        ck.violated(rid, inst, f.where, "with %d thread(s) %s" % bad, cfg)
+    else:
+        ck.holds(rid, inst, f.where, "for 1..8 threads one worker is started per id 0..n-1 and every handle is joined before the global finalisation", cfg)
+
+
+def check_array_loops(ck, P, rid, file_suffix, array, count_key, floor, what):
+    """Every counted `for` loop in the given file whose body addresses `array[index]` visits index 0..count-1 exactly (header evaluated
+    for counts 1..8)."""
+    cfg = P.config
+    n = 0
+    for f in P.all_functions():
+        if not f.file.endswith(file_suffix):
+            continue
+        for lp in f.walk():
+            if lp.k != "ForStmt":
+                continue
+            body = lp.children[4]
+            subs = [x for x in body.walk() if x.k == "ArraySubscriptExpr" and X.strip(x.children[0]).k == "DeclRefExpr" and X.strip(x.children[0]).name == array
+                    and X.strip(x.children[1]).k == "DeclRefExpr"]
+            if not subs:
+                continue
+            idx = X.strip(subs[0].children[1]).name
+            # only loops whose own variable is the index
+            own = [v for v in lp.children[0].walk() if (v.k == "VarDecl" and v.name == idx) or (v.k == "DeclRefExpr" and v.name == idx)]
+            if not own:
+                continue
+            n += 1
+            inst = "every-%s@%s:%d" % (what, f.name, n)
+            bad = None
+            unknown = False
+            for cnt in range(1, 9):
+                got = for_indices(lp, idx, {count_key: cnt})
+                if got is None:
+                    unknown = True
+                    break
+                if got == "runaway" or sorted(got) != list(range(cnt)):
+                    bad = bad or (cnt, got)
+            if unknown:
+                ck.inconclusive(rid, inst, lp.where, "loop header is not a function of the index and the count alone", cfg)
+            elif bad:
+                ck.violated(rid, inst, lp.where, "with %d %s(s) %s visits %s[%s] only for %s" % (bad[0], what, f.name, array, idx, bad[1]), cfg)
+            else:
+                ck.holds(rid, inst, lp.where, "%s visits %s[0 .. count-1]" % (f.name, array), cfg)
+    ck.expect(rid, n, floor, "loops over %s[]" % array)
